@@ -121,16 +121,15 @@ theorem success_complete (c : Cfg α) (hsp : SparseOk c.zero c.ops) (dstExists :
         `success = false` directly in the model);
     (2) as long as the run has not succeeded — at every prefix, hence at every crash point — the source inode exists
         and no `unlink(source)` has been attempted;
-    (3) a finished unsuccessful run is "loud": non-zero exit status, or a signal was seen (xz then dies by it), or a
-        write failed with EPIPE (which in reality comes with SIGPIPE; see findings/C17-epipe-with-sigpipe-ignored.json);
+    (3) a finished unsuccessful run is "loud": non-zero exit status, or a signal was seen (xz then dies by it);
+        this includes EPIPE without SIGPIPE (findings/C17-epipe-with-sigpipe-ignored.json, fixed in /repo by fad6dfb);
     (4) when no other process renames the target, a finished unsuccessful run has unlinked the target it created,
         unless fstat / lstat / unlink of that target were themselves made to fail. -/
 theorem failure_cleanup (c : Cfg α) (hsp : SparseOk c.zero c.ops) (dstExists : Bool) (n : Nat) :
     let s := run c dstExists n
     (s.pc = .done → (∃ e ∈ s.trace, hardErr e = true) → s.success = false) ∧
     (s.success = false → s.fs.srcLinked = true ∧ ∀ e ∈ s.trace, e.call ≠ .unlink .src) ∧
-    (s.pc = .done → s.success = false →
-      s.exitSt ≠ 0 ∨ s.userAbort = true ∨ ∃ m, (⟨.write m, .err EPIPE⟩ : Event) ∈ s.trace) ∧
+    (s.pc = .done → s.success = false → s.exitSt ≠ 0 ∨ s.userAbort = true) ∧
     (c.moveAt = none → s.pc = .done → s.success = false → s.fs.ownLinked = true →
       ∃ e ∈ s.trace, cleanupFault e = true) := by
   intro s
@@ -236,5 +235,10 @@ example : let c := { exCfg with fault := fun k => if k = 8 then some (.err 28) e
 example : let c := { exCfg with fault := fun k => if k = 5 then some (.err 5) else if k = 8 then some (.err 28) else none }
     (run c false 40).pc = .done ∧ (run c false 40).success = false ∧ (run c false 40).fs.ownLinked = true ∧
     (∃ e ∈ (run c false 40).trace, cleanupFault e = true) := by decide +kernel
+
+/-- EPIPE on a write while SIGPIPE is ignored (no signal in the model): exit status 1, target removed -/
+example : let c := { exCfg with fault := fun k => if k = 8 then some (.err EPIPE) else none }
+    (run c false 40).pc = .done ∧ (run c false 40).exitSt = 1 ∧ (run c false 40).userAbort = false ∧
+    (run c false 40).fs.ownLinked = false ∧ (run c false 40).fs.srcLinked = true := by decide +kernel
 
 end XzVerif.C17
